@@ -23,6 +23,41 @@ def index_tokens(fn):
     return 'self._fx', 'self._fx1'
 
 
+def index_roles(fn):
+    """{name: 'lo' | 'hi'} for locals of fn that derive (through local definitions) from exactly one of the two row indices"""
+    i0, i1 = index_tokens(fn)
+    defs = {}
+    for n in ast.walk(fn):
+        if isinstance(n, ast.Assign) and len(n.targets) == 1 and isinstance(n.targets[0], ast.Name):
+            defs.setdefault(n.targets[0].id, []).append(n.value)
+    roles = {}
+    pf = None
+    for n in ast.walk(fn):
+        if isinstance(n, ast.Assign) and isinstance(n.value, ast.Call) and call_name(n.value) == 'find_row_by_distance' \
+                and isinstance(n.targets[0], ast.Tuple) and len(n.targets[0].elts) >= 3:
+            pf = ast.unparse(n.targets[0].elts[2])
+    changed = True
+    while changed:
+        changed = False
+        for nm, vals in defs.items():
+            if nm in roles or nm in (i0, i1):
+                continue
+            for v in vals:
+                txt = ast.unparse(v)
+                toks = {x.id for x in ast.walk(v) if isinstance(x, ast.Name)} | ({i0} if i0 in txt else set()) | ({i1} if i1 in txt else set())
+                lo = (i0 in toks and not (i1 in toks)) if not i1.startswith(i0) else (i0 in toks and i1 not in txt)
+                # careful with textual prefixes (fx / fx1): test the longer token first
+                has_hi = i1 in txt or any(roles.get(t) == 'hi' for t in toks)
+                has_lo = (txt.replace(i1, '') .find(i0) >= 0) or any(roles.get(t) == 'lo' for t in toks)
+                if has_hi and not has_lo:
+                    roles[nm] = 'hi'
+                    changed = True
+                elif has_lo and not has_hi:
+                    roles[nm] = 'lo'
+                    changed = True
+    return roles, pf or 'self._pfac'
+
+
 def poly(e, env=None):
     """polynomial normal form {monomial(tuple of sorted names): Fraction} of an arithmetic expression"""
     if isinstance(e, ast.Constant) and isinstance(e.value, (int, float)):
@@ -133,63 +168,80 @@ def run(ctx, repo):
         if isinstance(n, ast.Assign) and len(n.targets) == 1 and isinstance(n.targets[0], ast.Name):
             envc.setdefault(n.targets[0].id, []).append(n.value)
     done = False
+    roles_cf, _ = index_roles(cf)
+
+    def sides(syms):
+        lo = [x for x in syms if roles_cf.get(x) == 'lo']
+        hi = [x for x in syms if roles_cf.get(x) == 'hi']
+        return lo, hi
+    fracn = None
+    for name, vals in envc.items():
+        for v in vals:
+            if isinstance(v, ast.BinOp) and isinstance(v.op, ast.Div) and isinstance(v.right, ast.BinOp) and isinstance(v.right.op, ast.Sub):
+                rs = {x.id for x in ast.walk(v.right) if isinstance(x, ast.Name)}
+                lo, hi = sides(rs)
+                if lo and hi:
+                    fracn = name
     for name, vals in envc.items():
         for v in vals:
             try:
                 p = poly(v)
             except AnalysisError:
                 continue
-            syms = sorted({s for k in p for s in k})
-            if len(syms) == 3 and any('frac' in s or s == 't' for s in syms):
-                t = [s for s in syms if 'frac' in s or s == 't'][0]
-                others = [s for s in syms if s != t]
-                sh = [s for s in others if 'short' in s]
-                lo = [s for s in others if 'long' in s]
-                if sh and lo:
+            syms = sorted({x for k in p for x in k})
+            if len(syms) == 3 and fracn in syms:
+                t = fracn
+                lo, hi = sides([x for x in syms if x != t])
+                if lo and hi:
                     done = True
-                    if p == convex(t, sh[0], lo[0]):
-                        ctx.ok('R2', 'calculate_factor: %s = (1 - %s) * %s + %s * %s' % (name, t, sh[0], t, lo[0]))
+                    if p == convex(t, lo[0], hi[0]):
+                        ctx.ok('R2', 'calculate_factor: %s = (1 - %s) * %s + %s * %s' % (name, t, lo[0], t, hi[0]))
                     else:
                         ctx.finding('R2', '%s::AgeGrader.calculate_factor::convex interpolation of factors' % AGE, AGE, v.lineno,
-                                    '%s = %s is not the convex combination (1 - %s) * %s + %s * %s: the interpolated factor can '
-                                    'leave the interval between its neighbours' % (name, unparse(v), t, sh[0], t, lo[0]))
+                                    '%s = %s is not the convex combination (1 - %s) * <shorter> + %s * <longer>: the interpolated factor can '
+                                    'leave the interval between its neighbours, or the ends are swapped' % (name, unparse(v), t, t))
     if not done:
         ctx.finding('R2', '%s::AgeGrader.calculate_factor::convex interpolation of factors' % AGE, AGE, cf.lineno,
-                    'no interpolation of the form (1 - frac) * factor_shorter + frac * factor_longer found')
-    # frac = (distance - distance_shorter) / (distance_longer - distance_shorter)
-    fr = [v for v in envc.get('frac', []) if isinstance(v, ast.BinOp)]
+                    'no interpolation of the form (1 - t) * factor_shorter + t * factor_longer found')
+    # t = (distance - d_shorter) / (d_longer - d_shorter)
+    fr = [v for v in envc.get(fracn, []) if isinstance(v, ast.BinOp)] if fracn else []
     ok = False
+
+    def role_of(e):
+        rs = [roles_cf.get(x.id) for x in ast.walk(e) if isinstance(x, ast.Name) and roles_cf.get(x.id)]
+        return rs[0] if len(set(rs)) == 1 else None
     if len(fr) >= 2:
         first, second = fr[0], fr[1]
-        if isinstance(first.op, ast.Sub) and 'short' in ast.unparse(first.right) and isinstance(second.op, ast.Div) \
+        if isinstance(first.op, ast.Sub) and role_of(first.right) == 'lo' and isinstance(second.op, ast.Div) \
                 and isinstance(second.right, ast.BinOp) and isinstance(second.right.op, ast.Sub) \
-                and 'long' in ast.unparse(second.right.left) and 'short' in ast.unparse(second.right.right):
+                and role_of(second.right.left) == 'hi' and role_of(second.right.right) == 'lo':
             ok = True
     elif len(fr) == 1 and isinstance(fr[0].op, ast.Div):
         l, r = fr[0].left, fr[0].right
-        if isinstance(l, ast.BinOp) and isinstance(l.op, ast.Sub) and 'short' in ast.unparse(l.right) and isinstance(r, ast.BinOp) \
-                and isinstance(r.op, ast.Sub) and 'long' in ast.unparse(r.left) and 'short' in ast.unparse(r.right):
+        if isinstance(l, ast.BinOp) and isinstance(l.op, ast.Sub) and role_of(l.right) == 'lo' and isinstance(r, ast.BinOp) \
+                and isinstance(r.op, ast.Sub) and role_of(r.left) == 'hi' and role_of(r.right) == 'lo':
             ok = True
     if ok:
-        ctx.ok('R2', 'frac = (d - d_shorter) / (d_longer - d_shorter)')
+        ctx.ok('R2', 't = (d - d_shorter) / (d_longer - d_shorter)')
     else:
         ctx.finding('R2', '%s::AgeGrader.calculate_factor::interpolation fraction' % AGE, AGE, cf.lineno,
                     'the interpolation fraction is not (distance - distance_shorter) / (distance_longer - distance_shorter): %s' % [unparse(v) for v in fr])
     wb = mod.func('AgeGrader.world_best')
     done = False
+    roles_wb, pftok = index_roles(wb)
     for n in ast.walk(wb):
-        if isinstance(n, ast.Assign) and len(n.targets) == 1 and isinstance(n.targets[0], ast.Name) and 'averaged' in n.targets[0].id:
+        if isinstance(n, ast.Assign) and len(n.targets) == 1 and isinstance(n.targets[0], ast.Name):
             try:
                 p = poly(n.value)
             except AnalysisError:
                 continue
-            syms = sorted({s for k in p for s in k})
-            t = [s for s in syms if 'pfac' in s]
-            sh = [s for s in syms if 'short' in s]
-            lo = [s for s in syms if 'long' in s]
-            if t and sh and lo:
+            syms = sorted({x for k in p for x in k})
+            t = [x for x in syms if x == pftok]
+            lo = [x for x in syms if roles_wb.get(x) == 'lo']
+            hi = [x for x in syms if roles_wb.get(x) == 'hi']
+            if t and lo and hi and len(syms) == 3:
                 done = True
-                if p == convex(t[0], sh[0], lo[0]):
+                if p == convex(t[0], lo[0], hi[0]):
                     ctx.ok('R2', 'world_best: speed = (1 - pfac) * v_shorter + pfac * v_longer')
                 else:
                     ctx.finding('R2', '%s::AgeGrader.world_best::convex interpolation of speeds' % AGE, AGE, n.lineno,
@@ -234,24 +286,27 @@ def run(ctx, repo):
                 ctx.ok('R4', 'get_distance: %s scales before truncating' % unparse(v))
     ctx.floor('unit arms of get_distance', n_unit, 5)
     # ---- R5 a neighbour without a distance (the field row before "50", or a code get_distance cannot read) is an end of the table
-    want = {'shorter': 'longer', 'longer': 'shorter'}
+    want = {'lo': 'hi', 'hi': 'lo'}
+    label = {'lo': 'shorter', 'hi': 'longer'}
     found = {}
     for n in ast.walk(cf):
         if isinstance(n, ast.If) and isinstance(n.test, ast.Compare) and isinstance(n.test.ops[0], ast.Is) \
-                and isinstance(n.test.comparators[0], ast.Constant) and n.test.comparators[0].value is None and isinstance(n.body[-1], ast.Return):
-            l = ast.unparse(n.test.left)
-            rv = ast.unparse(n.body[-1].value) if n.body[-1].value is not None else ''
-            for side, other in want.items():
-                if side in l and 'distance' in l and other in rv and 'factor' in rv:
-                    found[side] = True
+                and isinstance(n.test.comparators[0], ast.Constant) and n.test.comparators[0].value is None and isinstance(n.body[-1], ast.Return) \
+                and isinstance(n.test.left, ast.Name) and isinstance(n.body[-1].value, ast.Name):
+            side = roles_cf.get(n.test.left.id)
+            other = roles_cf.get(n.body[-1].value.id)
+            isdist = any(isinstance(v, ast.Call) and call_name(v) == 'get_distance' for v in envc.get(n.test.left.id, []))
+            isfac = any(isinstance(v, ast.Call) and call_name(v) == 'calculate_factor' for v in envc.get(n.body[-1].value.id, []))
+            if side and other and want[side] == other and isdist and isfac:
+                found[side] = True
     for side, other in want.items():
         if found.get(side):
-            ctx.ok('R5', 'a %s neighbour without a distance returns the %s neighbour\'s factor' % (side, other))
+            ctx.ok('R5', 'a %s neighbour without a distance returns the %s neighbour\'s factor' % (label[side], label[other]))
         else:
-            ctx.finding('R5', '%s::AgeGrader.calculate_factor::%s neighbour without a distance' % (AGE, side), AGE, cf.lineno,
+            ctx.finding('R5', '%s::AgeGrader.calculate_factor::%s neighbour without a distance' % (AGE, label[side]), AGE, cf.lineno,
                         'when the %s neighbour has no distance (below 50 m it is the field row that precedes "50" in the table) the %s '
-                        'neighbour\'s factor must be returned; the guard `if distance_%s is None: return factor_%s` is gone, so the factor '
-                        'is blended with a throwing event\'s' % (side, other, side, other), "wma_age_factor('m', 60, '20')")
+                        'neighbour\'s factor must be returned; that guard is gone, so the factor is blended with a throwing event\'s' % (
+                            label[side], label[other]), "wma_age_factor('m', 60, '20')")
     # ---- R3 data
     n_rows = 0
     for rel in TABLES:
